@@ -880,6 +880,13 @@ func conf045() string { // errors.As: interface and concrete targets, wrapped, j
 	return confJoin(confB(okC), code, confB(okT), confB(tv), confB(okN), confB(okN2), confB(ce2 == nil), confB(okV), confB(te.t), confB(errors.As(nil, &ce2)))
 }
 
+func conf046() string { // byte/char searches and counts (assembly in the real build), ReplaceAll
+	b := []byte("a\x00bc\x00")
+	return confJoin(bytes.IndexByte(b, 0), bytes.IndexByte(b, 'z'), strings.IndexByte("hello", 'l'), strings.IndexByte("", 'l'),
+		bytes.Count(b, []byte{0}), strings.Count("a*b*c", "*"), strings.Count("abc", "*")) + "," +
+		strings.ReplaceAll("a*b*c", "*", ".*") + "," + strings.ReplaceAll("abc", "*", "x")
+}
+
 var confCases = []confCase{
 	{"001-complit-assign", conf001, "1,1,1"},
 	{"002-struct-copy", conf002, "1,5"},
@@ -926,6 +933,7 @@ var confCases = []confCase{
 	{"043-unsigned", conf043, "1,1,1,44,300,-56,255"},
 	{"044-bits", conf044, "2,7,3,1,3,8,4,31,111-ff"},
 	{"045-errors-as", conf045, "1,5,1,1,0,0,1,1,0,0"},
+	{"046-bytealg", conf046, "1,-1,2,-1,2,2,0,a.*b.*c,abc"},
 }
 
 // One harness per case group keeps a failure local; every case is fully concrete, so each is a single path.
@@ -949,4 +957,4 @@ func verifHarnessConformanceA() { verifConfRun(0, 10) }
 func verifHarnessConformanceB() { verifConfRun(10, 20) }
 func verifHarnessConformanceC() { verifConfRun(20, 32) }
 func verifHarnessConformanceD() { verifConfRun(32, 38) }
-func verifHarnessConformanceE() { verifConfRun(38, 46) }
+func verifHarnessConformanceE() { verifConfRun(38, 47) }
